@@ -6,6 +6,7 @@ THEOREMS = [
     "C07.no_loop_once_between_resets",
     "C07.no_loop_once_engine_history",
     "C07.no_loop_once_named_history",
+    "C07.no_loop_once_action_history",
     "C07.activation_group_once",
     "C07.focus_falls_back",
     "C07.fire_all_bounded_incremental",
@@ -16,6 +17,7 @@ THEOREMS = [
     "C07.model_meets_spec",
     "C07.model_meets_weak_spec",
 ]
+LEAN_TARGETS = ["RreModel.C07.Theorems", "RreModel.C07.ActTheorems"]
 N = {"quick": 2500, "thorough": 30000}
 EXHAUSTIVE = {"quick": False, "thorough": False}
 EXEC_TIMEOUT = 900
@@ -40,6 +42,18 @@ RULE = ("cases = corpus (defect witnesses, hand-written corner cases) + N random
         "Integer(1/0), Null), set by the caller before the first fire_all, between calls, and by a rule's own / another rule's action "
         "during a cycle, with 2..4 fire_all calls mostly without reset in between; what each engine reads as fired is C07.markerFired "
         "(ReteUlEngine: exactly \"true\"; TypedReteUlEngine: FactValue::as_boolean() == Some(true)). "
+        "On top come N/8 NAME cases (`A`): agenda histories whose rule names, agenda groups, activation groups and ruleflow groups "
+        "are drawn from per-case pools mixing the ordinary names with 20 unusual but legal ones (\"\", blank-only names — space, two "
+        "spaces, tab, NBSP, newline —, \"MAIN\" / \"main\" / \"MAIN \" / \" MAIN\" outside and next to the agenda group MAIN, 300-byte "
+        "names differing in the last byte, composed / decomposed / CJK / full-width non-ASCII, names differing only in case or in a "
+        "trailing blank: all DIFFERENT names), activation groups on half of the adds; N/32 of the `M` / marker cases above with their "
+        "rule names mapped into the same table on all three engines; and N/16 ACTION cases (`K`): one IncrementalEngine, 1..3 named "
+        "rules (mostly no-loop, distinct saliences) whose ACTIONS queue 0..2 retractions — ActionResult::Retract of the rule's own "
+        "matched fact, of a fixed handle (another rule's fact, a handle already retracted by a higher-salience rule or by the same "
+        "action, a handle that never existed) or RetractByType — driven through 2..4 fire_all calls with inserts / updates / retracts "
+        "/ resets in between (at most 3 facts are inserted: the model predicts every iteration order of the type index and the "
+        "implementation must match one of them); C07.histOk (no-loop once between resets, bound, handle sequence) is evaluated over "
+        "the whole history. "
         "Each case is run on the real code and on the Lean model; observations (returned activation, focus, stats after every call; "
         "fired list and final counters; per-call results of a history) are diffed, and the Spec predicates C07.runOk / C07.runOkWeak / "
         "C07.fireAllOk / C07.histOk are evaluated on the "
@@ -65,7 +79,14 @@ ASSUMPTIONS = [
     "or a rule's action) with a value the engine does not read as fired forgets the memory of that one name and is treated by the "
     "oracle like a reset_fired_flags restricted to that name (C07.mhistOk marker clause, C07.clearedBy; conservative per NAME: any "
     "registration of the firing name that carries such a write counts); the engine's own write after an action always wins",
-    "IncrementalEngine engine cases use pairwise distinct priorities and no-op actions (creation order of activations of different "
+    "`K` cases (actions that retract facts on IncrementalEngine): WorkingMemory::get_by_type iterates a HashSet<FactHandle>, so the order "
+    "in which one rule's activations for several facts are created (and which fact RetractByType removes) is unspecified; with at most "
+    "three inserted facts the order is one permutation per run (hashbrown never rehashes a 4-bucket table that has seen <= 3 inserts); "
+    "the model (C07.IncA, field perm) is run for every permutation and the implementation must agree with one of them; the no-loop "
+    "clause itself is judged on the observations alone (C07.histOk)",
+    "names: the `odd_name` table of the harness is injective, so the model's natural-number identifiers stay a faithful image of the "
+    "strings (HashSet<String> / HashMap<String, _> membership = exact string equality is the behaviour the model mirrors)",
+    "IncrementalEngine engine cases other than `K` use pairwise distinct priorities and no-op actions (creation order of activations of different "
     "rules comes from HashSet iteration); conflict-resolution strategies other than the Ord on Activation have no effect in the code "
     "(set_strategy re-sorts a temporary vector and rebuilds the same heaps) and are modelled as the identity",
 ]
@@ -73,6 +94,9 @@ ASSUMPTIONS = [
 
 def agree(case, impl, model):
     if impl == model:
+        return True
+    # `K` cases: the model prints one prediction per iteration order of the type index (HashSet<FactHandle>), joined by ` || `
+    if case.startswith("K ") and impl in model.split(" || "):
         return True
     # equal (salience, created_at) inside a group: either order is admissible; the oracle line already passed runOkWeak
     return impl.startswith("T1 ") and model.startswith("T1 ")
@@ -88,6 +112,7 @@ LEVEL_TEXT = ("Lean 4 theorems (kernel-checked, unbounded: every agenda state / 
               "executable model of AdvancedAgenda and of the three fire_all loops: pop_is_max, drain_sorted, no_loop_once_between_resets, "
               "no_loop_once_engine_history (the same clause over any history of insert / update / retract / fire_all / reset calls on one IncrementalEngine, calls that stop at the bound included), "
               "no_loop_once_named_history (the same clause per rule NAME over any history of fire_all / reset_fired_flags / set_fact calls — `<name>_fired` facts set to any value by the caller or by actions included — on one TypedReteUlEngine or ReteUlEngine with any number of registrations per name), "
+              "no_loop_once_action_history (the same clause over any history on one IncrementalEngine whose rules' actions queue any retractions — own fact, any handle incl. already retracted / never existing ones whose failing retraction is ignored, first fact of the type — for every iteration order of the type index), "
               "activation_group_once, focus_falls_back, fire_all_bounded for IncrementalEngine (at most 1000 executed activations; skipped ones are not counted after fix-C06b and terminate by agenda size: fire_all_skips_terminate), ReteUlEngine (100 passes, model after fix-C07c: the `<name>_fired` fact is honoured for no-loop rules) and "
               "TypedReteUlEngine (100 passes, after fix-C07), and model_meets_spec for the observation-level predicates; tied to the Rust "
               "code by a correspondence check (model vs implementation after every call) and by evaluating the same Spec predicates on "
